@@ -125,6 +125,11 @@ def lengths(rng, cap, extra_random=2):
 
 
 # ------------------------------------------------------------------ canonical lines
+def xname(e):
+    """exception name on the line protocol; the simulator's command budget = the model's OutOfFuel"""
+    return "OutOfFuel" if type(e).__name__ == "CommandBudgetExceeded" else exc_name(e)
+
+
 def seen_line(ndef):
     if ndef is None:
         return "ok none"
@@ -137,11 +142,11 @@ def see(sim):
         tag = sim.activate()
         n = tag.ndef
     except Exception as e:  # noqa
-        return "exc " + exc_name(e), None
+        return "exc " + xname(e), None
     try:
         return seen_line(n), n
     except Exception as e:  # noqa
-        return "exc " + exc_name(e), None
+        return "exc " + xname(e), None
 
 
 def t3_cmds(sim):
@@ -172,7 +177,7 @@ class SetRun:
             self.ndef = n = tag.ndef
         except Exception as e:  # noqa
             self.res = None
-            self.line = "exc " + exc_name(e)
+            self.line = "exc " + xname(e)
             return
         if n is None:
             self.res = None
@@ -184,7 +189,7 @@ class SetRun:
             n.octets = data
             self.res = "ok"
         except Exception as e:  # noqa
-            self.res = "exc " + exc_name(e)
+            self.res = "exc " + xname(e)
         self.cmds_during = sim.ncmd - before
         mem = sim.mem if isinstance(sim, T3Sim) else sim.file
         cmds = t3_cmds(sim) if isinstance(sim, T3Sim) else t4_cmds(sim)
